@@ -1,5 +1,6 @@
 """partition / collapse / merge / concat executors (DESIGN Appendix A)."""
 import copy
+import math
 
 import numpy as np
 
@@ -445,10 +446,16 @@ def op_merge(w, ev, slot):
                 e.md[ax] = copy.deepcopy(s.md[ax])
         e = _approx_adopt(w, res, e, 'merge.result', 'merge', rtol)
         if uu:
-            tin = sum(r.m.sum() for r in refs)
-            if not np.isclose(e.m.sum(), tin, rtol=1e-9, atol=0):
+            cells = [x for r in refs for x in r.m.ravel().tolist()]
+            try:
+                tin = math.fsum(cells)
+                tout = math.fsum(e.m.ravel().tolist())
+                scale = math.fsum(abs(x) for x in cells)
+            except OverflowError:
+                tin = tout = scale = 0.0
+            if abs(tin - tout) > 1e-9 * scale:
                 w.fail('merge.total', 'grand total %r, operands sum to %r'
-                       % (e.m.sum(), tin))
+                       % (tout, tin))
         return e
     w.stats['merge.fast' if fast_ok else 'merge.general'] += 1
     return _newtable(w, ev, slot, 'merge', do, expected, 'merge.result',
@@ -518,10 +525,15 @@ def op_concat(w, ev, slot):
         e.md[oax] = copy.deepcopy(s.md[oax])      # other-axis metadata: open
         e.type = res.type
         w.expect_table(res, e, 'concat.result', True, 'concat')
-        tin = sum(r.m.sum() for r in refs)
-        if not np.isclose(e.m.sum(), tin, rtol=1e-9, atol=0):
+        # the result's cells are the operands' cells plus zeros: exact sums
+        try:
+            tin = math.fsum(x for r in refs for x in r.m.ravel().tolist())
+            tout = math.fsum(e.m.ravel().tolist())
+        except OverflowError:
+            tin = tout = 0.0
+        if tin != tout:
             w.fail('concat.total', 'grand total %r, operands sum to %r'
-                   % (e.m.sum(), tin))
+                   % (tout, tin))
         return e
     w.stats['concat.disjoint' if disjoint else 'concat.overlap'] += 1
     out = _newtable(w, ev, slot, 'concat', do, expected, 'concat.result',
